@@ -1,0 +1,11 @@
+//go:build verif
+
+package api
+
+import "net/http"
+
+// VerifC06Serve passes a request through the API's main handler exactly as the HTTP server does
+// (mainHandler.ServeHTTP: RunWorker("http request") around handle), without a listening socket.
+func VerifC06Serve(w http.ResponseWriter, r *http.Request) {
+	(&mainHandler{mux: mainMux}).ServeHTTP(w, r)
+}
